@@ -15,7 +15,8 @@ Ops → output
 * `verifyoffer T` / `verifyorder T`          → `ok` | `err:<kind>`
 * `signoffer T k`                            → `ok T'` | `err:<kind>`
 * `signorder T nonce k`                      → `ok T'` | `err:<kind> T'`
-* `provider T auctionType bidAmt minUnits nonce acctKey k` → `ok T'` | `err:<kind> T'`
+* `provider T auctionType bidAmt minUnits nonce acctKey k bidLease bidSelfChanBal bidUnann bidZeroConf`
+                                             → `ok T'` | `err:<kind> T'`
 * `checkoffer auctionType capacity pushAmt`  → `ok` | `err:<kind>`
 * `validateordered T known`                  → `ok` | `err:<kind>`
 * `register T known nodeKey msKey idx`       → `ok T'` | `err:<kind>`
@@ -32,7 +33,8 @@ def errName : Err → String
   | .panic => "panic" | .facts => "facts" | .ticketState => "ticket-state" | .recipient => "recipient"
   | .notOurs => "not-ours" | .market => "market" | .capacity => "capacity" | .pushAmt => "push"
   | .pushOut => "push-out" | .bidAmt => "bid-amt" | .minUnits => "min-units" | .exists => "exists"
-  | .unknown => "unknown"
+  | .unknown => "unknown" | .bidLease => "bid-lease" | .bidPush => "bid-push"
+  | .bidUnannounced => "bid-unannounced" | .bidZeroConf => "bid-zeroconf"
 
 def pOptKey (s : String) : Option (Option Key) :=
   if s == "-" then some none else s.toNat?.map some
@@ -117,11 +119,13 @@ def run (args : List String) : Option String :=
     pure (match signOrder sha t n k with
       | (t', none) => "ok " ++ fOptTicket t'
       | (t', some e) => "err:" ++ errName e ++ " " ++ fOptTicket t')
-  | ["provider", t, at_, amt, mu, n, ak, k] => do
+  | ["provider", t, at_, amt, mu, n, ak, k, bl, bs, bu, bz] => do
+    let bl ← bl.toNat?; let bs ← bs.toInt?; let bu ← pBool bu; let bz ← pBool bz
     let t ← pTicket1 t
     let at_ ← at_.toNat?; let amt ← amt.toInt?; let mu ← mu.toNat?; let n ← unhex n
     let ak ← ak.toNat?; let k ← k.toNat?
-    pure (match validateAndSign sha t { auctionType := at_, amt := amt, minUnitsMatch := mu, nonce := n } ak k with
+    let bid : BidTerms := ⟨at_, amt, mu, n, bl, bs, bu, bz⟩
+    pure (match validateAndSign sha t bid ak k with
       | (t', none) => "ok " ++ fTicket t'
       | (t', some e) => "err:" ++ errName e ++ " " ++ fTicket t')
   | ["checkoffer", at_, cap, push] => do
